@@ -556,21 +556,117 @@ def path_mode(tree, src):
 
 # ---- shape facts -----------------------------------------------------------------------------------------
 
-def mode_setter(tree):
-    f = fmethod(tree, "_BaseDataFrameWriter", "mode")
-    body = [s for s in f.body if not (isinstance(s, ast.Expr) and isinstance(s.value, ast.Constant))]
-    params = [a.arg for a in f.args.args]
-    ok = (len(body) == 1 and isinstance(body[0], ast.Return) and isinstance(body[0].value, ast.Call)
-          and dotted(body[0].value.func) == "self.copy" and not body[0].value.args
-          and len(params) == 2 and set(_kw(body[0].value)) == {"_mode"}
-          and dotted(_kw(body[0].value)["_mode"]) == params[1])
-    if not ok:
-        raise Untranslatable("mode(): no longer `return self.copy(_mode=<argument>)`")
+FIELDS = {"mode": "_mode", "by_name": "_by_name", "state_format_to_write": "_state_format_to_write"}   # ctor param -> attribute
+COPY_TEXT = ("self.__class__(**{k[1:] if k.startswith('_') else k: v for k, v in object_to_dict(self, **kwargs).items()})")
+
+
+def builder_facts(tree):
+    """what mode(), byName and format() do to the writer's flags (mode, by_name, format), as Coq functions on wflags.
+    Recognised bodies: `return self.copy(<kw>=e, ...)` (copy() keeps every attribute and overrides the named ones),
+    `return self.__class__(<args>)` / `type(self)(<args>)` (only what is passed survives, the rest gets the constructor's
+    defaults), `self._<field> = e; ...; return self`.  Values: the method's own parameter, a literal, or self._<field>."""
     init = fmethod(tree, "_BaseDataFrameWriter", "__init__")
-    if not any(isinstance(s, ast.Assign) and dotted(s.targets[0]) == "self._mode" and dotted(s.value) == "mode"
-               for s in init.body):
-        raise Untranslatable("__init__: self._mode = mode not found")
-    return True
+    params = [a.arg for a in init.args.args]
+    if params != ["self", "df", "mode", "by_name", "state_format_to_write"]:
+        raise Untranslatable(f"writer __init__ parameters {params}")
+    defaults = [ast.unparse(d) for d in init.args.defaults]
+    if defaults != ["None", "False", "None"]:
+        raise Untranslatable(f"writer __init__ defaults {defaults}")
+    assigned = {dotted(st.targets[0]): dotted(st.value) for st in init.body if isinstance(st, ast.Assign)}
+    want = {"self._df": "df", **{f"self.{a}": pname for pname, a in FIELDS.items()}}
+    if assigned != want:
+        raise Untranslatable(f"writer __init__ assignments {assigned}")
+    cp = fmethod(tree, "_BaseDataFrameWriter", "copy")
+    if not (len(cp.body) == 1 and isinstance(cp.body[0], ast.Return) and ast.unparse(cp.body[0].value) == COPY_TEXT
+            and cp.args.kwarg and cp.args.kwarg.arg == "kwargs" and [a.arg for a in cp.args.args] == ["self"]):
+        raise Untranslatable("writer copy(): no longer rebuilds the writer from all its attributes + overrides")
+    CUR = {"mode": "(w_mode w)", "by_name": "(w_by_name w)", "state_format_to_write": "(w_format w)"}
+    DEF = {"mode": "None", "by_name": "false", "state_format_to_write": "None"}
+
+    def value(n, field, param, param_is_str):
+        if param and dotted(n) == param:
+            return "(Some arg)" if param_is_str and field != "by_name" else "arg"
+        if isinstance(n, ast.Constant):
+            v = n.value
+            if field == "by_name" and isinstance(v, bool):
+                return "true" if v else "false"
+            if field != "by_name" and v is None:
+                return "None"
+            if field != "by_name" and isinstance(v, str):
+                return f"(Some {strlit(v)})"
+            raise Untranslatable(f"builder: literal {v!r} for {field}")
+        d = dotted(n)
+        for pname, attr in FIELDS.items():
+            if d == f"self.{attr}":
+                if pname != field:
+                    raise Untranslatable(f"builder: {field} set from {d}")
+                return CUR[field]
+        raise Untranslatable(f"builder: value {ast.unparse(n)} for {field}")
+
+    def flags_of(name, param_is_str):
+        f = fmethod(tree, "_BaseDataFrameWriter", name)
+        ps = [a.arg for a in f.args.args]
+        if len(ps) > 2 or f.args.vararg or f.args.kwarg or f.args.kwonlyargs:
+            raise Untranslatable(f"{name}(): parameters {ps}")
+        param = ps[1] if len(ps) == 2 else None
+        body = list(f.body)
+        if not body or not isinstance(body[-1], ast.Return):
+            raise Untranslatable(f"{name}(): does not end in return")
+        ret = body[-1].value
+        out = dict(CUR)
+        if dotted(ret) == "self":
+            for st in body[:-1]:
+                tgt = dotted(st.targets[0]) if isinstance(st, ast.Assign) and len(st.targets) == 1 else None
+                fld = next((p for p, a in FIELDS.items() if tgt == f"self.{a}"), None)
+                if fld is None:
+                    raise Untranslatable(f"{name}(): statement {ast.unparse(st)[:60]}")
+                out[fld] = value(st.value, fld, param, param_is_str)
+            return out, py2v.norm_hash(f, rename_locals=False)
+        if len(body) != 1 or not isinstance(ret, ast.Call):
+            raise Untranslatable(f"{name}(): body shape")
+        callee = dotted(ret.func)
+        is_ctor = callee == "self.__class__" or (isinstance(ret.func, ast.Call) and dotted(ret.func.func) == "type"
+                                                 and [dotted(a) for a in ret.func.args] == ["self"])
+        if callee == "self.copy":
+            if ret.args:
+                raise Untranslatable(f"{name}(): positional arguments to copy()")
+            for k, v in _kw(ret).items():
+                key = k[1:] if k.startswith("_") else k
+                if key == "df" and dotted(v) == "self._df":
+                    continue
+                if key not in FIELDS:
+                    raise Untranslatable(f"{name}(): copy({k}=...)")
+                out[key] = value(v, key, param, param_is_str)
+            return out, py2v.norm_hash(f, rename_locals=False)
+        if is_ctor:
+            out = dict(DEF)
+            names = ["df", "mode", "by_name", "state_format_to_write"]
+            given = dict(zip(names, ret.args))
+            for k, v in _kw(ret).items():
+                if k in given or k not in names:
+                    raise Untranslatable(f"{name}(): constructor argument {k}")
+                given[k] = v
+            dfv = given.pop("df", None)
+            if dfv is None or not (dotted(dfv) == "self._df" or (isinstance(dfv, ast.Call) and dotted(dfv.func) == "self._df.copy"
+                                                                  and not dfv.args and not dfv.keywords)):
+                raise Untranslatable(f"{name}(): the new writer does not carry the same frame")
+            for k, v in given.items():
+                out[k] = value(v, k, param, param_is_str)
+            return out, py2v.norm_hash(f, rename_locals=False)
+        raise Untranslatable(f"{name}(): returns {ast.unparse(ret)[:60]}")
+
+    res = {}
+    for name, is_str in (("mode", False), ("byName", False), ("format", True)):
+        res[name] = flags_of(name, is_str)
+    def mk(o):
+        return f"mkW {o['mode']} {o['by_name']} {o['state_format_to_write']}"
+    text = [f"Definition b_mode (w : wflags) (arg : option string) : wflags := {mk(res['mode'][0])}.",
+            f"Definition b_byname (w : wflags) : wflags := {mk(res['byName'][0])}.",
+            f"Definition b_format (w : wflags) (arg : string) : wflags := {mk(res['format'][0])}.",
+            "Definition gen_bcfg : bcfg := mkB b_mode b_byname b_format."]
+    facts = [{"name": f"builder:{n}", "from": f"base/readerwriter.py: _BaseDataFrameWriter.{n} (+ copy, __init__)", "hash": h,
+              "value": o} for n, (o, h) in res.items()]
+    return text, facts
 
 
 def insert_into(tree, src):
@@ -741,13 +837,13 @@ def generate(repo: str):
     aft, aft_h = after_validate(dk_tree, dk_src)
     cleans = cleans_new_path_debris(dk_tree)
     pm, pm_h = path_mode(rw_tree, rw_src)
-    mode_setter(rw_tree)
+    b_text, b_facts = builder_facts(rw_tree)
     byname, ins_h = insert_into(rw_tree, rw_src)
     keep, add_h = add_table_policy(cat_tree, cat_src)
     tab_h = reader_table(rw_tree, rw_src)
     ge_h = get_expressions_containers(df_tree, df_src)
     L = ["(* GENERATED from /repo on every run by translate/c14_facts.py -- do not edit *)",
-         "From SF Require Import Base.Val C14.Writer.",
+         "From SF Require Import Base.Val C14.Writer C14.Builder.",
          "Open Scope string_scope.",
          f"Definition sat_plan (table_exists : bool) (arg_mode self_mode : option string) : sat_action :=\n  {sat}.",
          f"Definition validate_mode (path_exists : bool) (mode0 : option string) : vres :=\n  {val}.",
@@ -758,20 +854,19 @@ def generate(repo: str):
          f"Definition byname_source : byname_src := {byname}.",
          f"Definition cleans_new_path_debris : bool := {'true' if cleans else 'false'}.",
          "Definition gen_cfg : cfg := mkCfg sat_plan validate_mode after_validate path_mode add_if_absent byname_source "
-         "cleans_new_path_debris."]
+         "cleans_new_path_debris."] + b_text
     facts = [
         {"name": "sat_plan", "from": "base/readerwriter.py: _BaseDataFrameWriter.saveAsTable", "hash": sat_h, "text": sat},
         {"name": "validate_mode", "from": "base/readerwriter.py: _BaseDataFrameWriter._validate_mode", "hash": val_h, "text": val},
         {"name": "after_validate", "from": "duckdb/readwriter.py: DuckDBDataFrameWriter._write", "hash": aft_h, "text": aft},
         {"name": "cleans_new_path_debris", "from": "duckdb/readwriter.py: DuckDBDataFrameWriter._write (try/except around COPY)", "hash": aft_h, "value": cleans},
         {"name": "path_mode", "from": "base/readerwriter.py: csv/json/parquet -> self._write(mode=...)", "hash": pm_h, "value": pm},
-        {"name": "mode_setter_stores_argument", "from": "base/readerwriter.py: mode()/__init__", "value": True},
         {"name": "byname_source", "from": "base/readerwriter.py: insertInto (+ Insert container, executed)", "hash": ins_h, "value": byname},
         {"name": "add_if_absent", "from": "base/catalog.py: _BaseCatalog.add_table", "hash": add_h, "value": keep},
         {"name": "reader_table_selects_cached_columns", "from": "base/readerwriter.py: _BaseDataFrameReader.table", "hash": tab_h, "value": True},
         {"name": "containers_receive_select", "from": "base/dataframe.py: _get_expressions Create/Insert", "hash": ge_h, "value": True},
     ]
-    return "\n".join(L) + "\n", facts
+    return "\n".join(L) + "\n", facts + b_facts
 
 
 if __name__ == "__main__":
